@@ -102,3 +102,15 @@ Proof.
     destruct (sem_pts_loop (fun q e => mk_unknown_issue q (dtype_of (p_kind p)) e) true (p_pts p) dv) as [l2 d2].
     cbn [fst snd] in *. rewrite rerrored_app, NoErr, S. split; reflexivity.
 Qed.
+
+(** behind a pointer: a present input allocates the pointer, and what it points to is the catching
+    node's value — the catch value when the node failed, the parsed value otherwise *)
+Theorem catch_behind_pointer p pz v e0 c : p_catch p = Some c -> p_pts p = [] -> parse_zero v = false ->
+  snd (sem Parse (SPtr (SPrim p) None pz) (DVal v) (DPtr None) e0)
+  = DPtr (Some (match p_coerce p v with Some x => if all_ok (p_tests p) x then x else c | None => c end))
+  /\ rerrored (fst (sem Parse (SPtr (SPrim p) None pz) (DVal v) (DPtr None) e0)) = false.
+Proof.
+  intros Ec Ep Z. cbn [sem]. rewrite Z. cbn [data_val].
+  destruct (catch_own_node Parse p v pz e0 c Ec Ep) as [NoErr Val]. cbv zeta in Val. rewrite Z in Val.
+  destruct (sem_prim Parse p v pz e0) as [l y] eqn:E. cbn [fst snd] in *. subst y. split; [reflexivity | exact NoErr].
+Qed.
